@@ -209,6 +209,38 @@ def run_verus_unit(u, scratch, tier):
         extra += ['--rlimit', str(asm.meta['rlimit'])]
     res = V.run_verus(path, timeout, extra)
     c = V.classify(res, text)
+    # A (auto-extraction): an extracted item refers to a top-level `const` / `static` of its own source file that the unit
+    # does not name (a constant introduced by a later edit: `const TAB_WIDTH: u32 = 8;`).  The definition is added verbatim
+    # (recorded) and the unit is run again, instead of ending UNDECIDED(front-end: cannot find value).
+    for _round in range(3):
+        if c['status'] != 'front-end':
+            break
+        missing = sorted(set(m for msg in c['frontend'] for m in re.findall(r'cannot find value `([A-Za-z_]\w*)` in this scope', msg)))
+        added = []
+        for name in missing:
+            for rel, src in list(asm.sources.items()):
+                for kind in ('const', 'static'):
+                    try:
+                        item, _parents = src.find([(kind, name)])
+                    except LookupError:
+                        continue
+                    added.append(src.text[item.start:item.end])
+                    asm.rewrites.append('A %s: %s %s referred to by an extracted item but not named by the unit: definition added verbatim' % (rel, kind, name))
+                    asm.extracted.append({'file': rel, 'item': '%s %s (auto)' % (kind, name),
+                                          'sha256': hashlib.sha256(src.text[item.start:item.end].encode()).hexdigest(),
+                                          'lines': [src.line_of(item.start), src.line_of(item.end - 1)]})
+                    break
+                else:
+                    continue
+                break
+        if not added or 'verus! {' not in text:
+            break
+        text = text.replace('verus! {', 'verus! {\n' + '\n'.join(added) + '\n', 1)
+        open(path, 'w').write(text)
+        info['extracted'] = list(asm.extracted)
+        info['rewrites'] = list(asm.rewrites)
+        res = V.run_verus(path, timeout, extra)
+        c = V.classify(res, text)
     info['smt_ms'] = c['smt_ms']
     info['wall_s'] = res['wall_s']
     info['fn_origin'] = asm.fn_origin
